@@ -112,14 +112,16 @@ def r1_base_policy(ctx) -> None:
             construct='active-arg', func=fi.qualname)
   # R5
   initf = ci.methods['_initialize_designer']
-  ok5 = False
+  ok5 = None
   for h in ast.walk(initf.node):
     if isinstance(h, ast.ExceptHandler) and h.type is not None and 'DecodeError' in unparse(h.type, 0):
       has_new = any(isinstance(x, ast.Assign) and any(dotted(t) == 'self._designer' for t in x.targets)
                     and isinstance(x.value, ast.Call) and (dotted(x.value.func) or '').endswith('_designer_factory')
                     for x in ast.walk(h))
       has_clear = any((dotted(c.func) or '') == 'self._cache.clear' for c in flow.calls_in(h))
-      ok5 = has_new and has_clear
+      if has_new:
+        ok5 = (ok5 is not False) and has_clear
+  ok5 = bool(ok5)
   ctx.check(ok5, 'R5', 'DecodeError handler: new designer and cache.clear()', initf.node,
             'a designer that lost its state is given every completed trial again',
             'when the saved state cannot be decoded the designer is re-created but the incorporated-id cache '
@@ -187,6 +189,17 @@ def r2_loader(ctx) -> None:
             'trial_ids = set(range(1, max_trial_id + 1)) - incorporated ids',
             'the id filter of the loader is not "all ids up to max_trial_id minus the incorporated ones"',
             construct='ids', func=f.qualname)
+  # early "nothing to load" shortcuts: only the idiom that implies {1..max} == incorporated
+  for n in ast.walk(f.node):
+    if isinstance(n, ast.If) and any(isinstance(x, ast.Return) for x in n.body):
+      t = n.test
+      sound = isinstance(t, ast.Compare) and len(t.ops) == 1 and isinstance(t.ops[0], ast.Eq) and {
+          unparse(t.left, 0), unparse(t.comparators[0], 0)} == {f'len(self.{field})', 'max_trial_id'}
+      ctx.check(sound, 'R2', 'newly completed: early-return shortcut', n,
+                'len(incorporated) == max_trial_id (with incorporated a subset of 1..max this implies nothing is missing)',
+                f'the shortcut `{unparse(t, 60)}` returns no trials although ids up to max_trial_id may still be unincorporated '
+                '(e.g. an older trial completed after a newer one was given): that trial is delivered late or never',
+                construct='shortcut', func=f.qualname)
   # growth by exactly the returned trials
   ret = [n for n in ast.walk(f.node) if isinstance(n, ast.Return) and isinstance(n.value, ast.Name)]
   grow = [x for x in ast.walk(f.node) if isinstance(x, ast.AugAssign) and dotted(x.target) == f'self.{field}'
@@ -290,6 +303,22 @@ def r4_filters(ctx) -> None:
                 and 'trial_filter(' in unparse(x.generators[0].ifs[0], 0) for x in ast.walk(f.node))
   ctx.check(applied, 'R4', 'ServicePolicySupporter: filter applied to all listed trials', f.node, '[t for t in all if trial_filter(t)]',
             'the constructed filter is not applied to the listed trials', construct='applied', func=f.qualname)
+  # nothing but the TrialFilter decides: converted list == every listed trial
+  g = cfgmod.CFG(f.node)
+  prov = flow.Provenance(g, on_call=lambda c: 'stop', on_attr=lambda a: 'through')
+  conv = [c for c in flow.calls_in(f.node) if (dotted(c.func) or '').endswith('TrialConverter.from_protos')]
+  direct = False
+  if conv and conv[0].args:
+    o = prov.origins(conv[0].args[0], g.node_of(conv[0]))
+    calls = [v for k, v in o if k == 'call']
+    direct = len(calls) == 1 and (dotted(calls[0].func) or '').endswith('.ListTrials') and not any(k == 'iter' for k, _ in o)
+  only_filter = all(len(x.generators[0].ifs) == 1 and unparse(x.generators[0].ifs[0], 0).startswith('trial_filter(')
+                    for x in ast.walk(f.node) if isinstance(x, (ast.ListComp, ast.GeneratorExp)) and x.generators[0].ifs)
+  ctx.check(direct and only_filter, 'R4', 'ServicePolicySupporter: no selection besides the TrialFilter', f.node,
+            'every listed trial is converted; only trial_filter(t) selects',
+            'trials are pre-selected before the exact TrialFilter runs (e.g. by HasField(final_measurement)): completed trials '
+            'that do not satisfy the extra test (infeasible trials without a measurement) become invisible to every algorithm',
+            construct='preselect', func=f.qualname)
   # TrialFilter.__call__ tests every field
   tfc = ctx.index.need_class('vizier._src.pyvizier.shared.trial.TrialFilter')
   call = tfc.methods['__call__']
